@@ -13,6 +13,7 @@ import (
 	"math/rand"
 	"os"
 	"runtime"
+	"runtime/debug"
 	"strings"
 	"syscall"
 	"time"
@@ -22,6 +23,7 @@ import (
 	"github.com/cloudwego/dynamicgo/conv/j2t"
 	"github.com/cloudwego/dynamicgo/conv/p2j"
 	"github.com/cloudwego/dynamicgo/conv/t2j"
+	dhttp "github.com/cloudwego/dynamicgo/http"
 	dproto "github.com/cloudwego/dynamicgo/proto"
 	pbin "github.com/cloudwego/dynamicgo/proto/binary"
 	pgen "github.com/cloudwego/dynamicgo/proto/generic"
@@ -142,6 +144,45 @@ func (c *c06) thriftEntries(t byte, in []byte) []RobRes {
 	return res
 }
 
+// a self-recursive type whose recursive fields are mapped to HTTP response headers: the converter writes each such value as a
+// JSON document of its own, through a second recursion path
+const httpDeepIDL = "struct L {\n  1: optional L child (api.header = \"X-Child\")\n  2: optional L plain\n  3: optional list<L> kids (api.header = \"X-Kids\")\n" +
+	"  4: optional i32 v\n  5: optional map<string,L> m (api.cookie = \"m\")\n}\nservice S { L M(1: L r) }\n"
+
+var httpDeepD *thrift.TypeDescriptor
+
+func httpDeepDesc() *thrift.TypeDescriptor {
+	if httpDeepD == nil {
+		svc, err := thrift.NewDescritorFromContent(context.Background(), "deephttp.thrift", httpDeepIDL, nil, false)
+		if err != nil {
+			die("deep http idl: %v", err)
+		}
+		fn, _ := svc.LookupFunctionByMethod("M")
+		httpDeepD = fn.Request().Struct().FieldById(1).Type()
+	}
+	return httpDeepD
+}
+
+func (c *c06) thriftHttpEntries(in []byte) []RobRes {
+	var res []RobRes
+	desc := c.tdesc
+	for _, native := range []bool{false, true} {
+		for _, setter := range []bool{true, false} {
+			native, setter := native, setter
+			res = append(res, measure(fmt.Sprintf("t2j.Do/http/native=%v/resp=%v", native, setter), func() error {
+				cv := t2j.NewBinaryConv(conv.Options{UseNativeSkip: native, EnableHttpMapping: true})
+				ctx := context.Background()
+				if setter {
+					ctx = context.WithValue(ctx, conv.CtxKeyHTTPResponse, dhttp.NewHTTPResponse())
+				}
+				_, err := cv.Do(ctx, desc, in)
+				return err
+			}))
+		}
+	}
+	return res
+}
+
 // message envelopes: the wrapper parser and the protocol's own header reader
 func (c *c06) envEntries(in []byte) []RobRes {
 	var res []RobRes
@@ -235,6 +276,10 @@ func (c *c06) run(rc RobCase) {
 			}
 		}
 		res = c.thriftEntries(byte(rc.T), in)
+	case "thrift-http":
+		c.tkey, c.tdesc, c.tidl = "", httpDeepDesc(), httpDeepIDL
+		res = append(c.thriftEntries(byte(rc.T), in), c.thriftHttpEntries(in)...)
+		c.tdesc, c.tidl = nil, ""
 	case "proto":
 		res = c.protoEntries(in)
 	case "env":
@@ -298,6 +343,9 @@ func c06Main(args map[string]string) {
 	out := newOut(args["out"])
 	defer out.Close()
 	c := &c06{out: out, g: newGpage(1 << 22)}
+	// no input of this driver exceeds a few megabytes: a decoder whose recursion is bounded (by a depth limit, as all of them
+	// claim) stays far below this stack; one whose recursion is bounded by the input alone dies here instead of at 1 GB
+	debug.SetMaxStack(128 << 20)
 	idx := 0
 	stride := atoi(args["stride"])
 	if stride < 1 {
@@ -428,6 +476,33 @@ func (c *c06) typedDeep() {
 		}
 		c.penv = penv
 		c.run(RobCase{Kind: "proto", B: B(body), MK: "deep-typed"})
+	}
+	// Thrift binary nested along declared fields, some of them HTTP-mapped (well-formed and cut before the closing half)
+	for _, depth := range []int{30, 1000, 1022, 1023, 1024, 1025, 4000, 70000, 400000} {
+		for _, shape := range []string{"child", "plain", "kids", "m", "mixed"} {
+			var open [][]byte
+			switch shape {
+			case "child":
+				open = [][]byte{{12, 0, 1}}
+			case "plain":
+				open = [][]byte{{12, 0, 2}}
+			case "kids":
+				open = [][]byte{{15, 0, 3, 12, 0, 0, 0, 1}}
+			case "m":
+				open = [][]byte{{13, 0, 5, 11, 12, 0, 0, 0, 1, 0, 0, 0, 1, 'k'}}
+			case "mixed":
+				open = [][]byte{{12, 0, 2}, {12, 0, 1}, {15, 0, 3, 12, 0, 0, 0, 1}}
+			}
+			var b []byte
+			for k := 0; k < depth && len(b) < 3<<20; k++ {
+				b = append(b, open[k%len(open)]...)
+			}
+			cutAt := len(b)
+			b = append(b, 8, 0, 4, 0, 0, 0, 1)
+			b = append(b, bytes.Repeat([]byte{0}, depth+1)...)
+			c.run(RobCase{Kind: "thrift-http", T: 12, B: B(b), MK: "deep-http"})
+			c.run(RobCase{Kind: "thrift-http", T: 12, B: B(b[:cutAt+3]), MK: "deep-http"})
+		}
 	}
 }
 
